@@ -538,8 +538,34 @@ static Function *find_module_function(Environment *env, const char *module_name,
     return NULL;
 }
 
+/* Modules whose imports are being processed right now (innermost last): a module that
+ * shows up here again is a circular import. */
+#define MAX_MODULE_LOADING_DEPTH 64
+static const char *g_modules_loading[MAX_MODULE_LOADING_DEPTH];
+static int g_modules_loading_depth = 0;
+
+static ASTNode *load_module_internal_impl(const char *module_path, Environment *env, bool use_cache, ModuleList *modules_to_track);
+
 /* Load and parse a module file */
 static ASTNode *load_module_internal(const char *module_path, Environment *env, bool use_cache, ModuleList *modules_to_track) {
+    if (!module_path) return NULL;
+    for (int i = 0; i < g_modules_loading_depth; i++) {
+        if (strcmp(g_modules_loading[i], module_path) == 0) {
+            fprintf(stderr, "Error: Circular import: module '%s' is imported again while it is still being loaded\n", module_path);
+            return NULL;
+        }
+    }
+    if (g_modules_loading_depth >= MAX_MODULE_LOADING_DEPTH) {
+        fprintf(stderr, "Error: Imports nested too deeply (more than %d modules) at '%s'\n", MAX_MODULE_LOADING_DEPTH, module_path);
+        return NULL;
+    }
+    g_modules_loading[g_modules_loading_depth++] = module_path;
+    ASTNode *ast = load_module_internal_impl(module_path, env, use_cache, modules_to_track);
+    g_modules_loading_depth--;
+    return ast;
+}
+
+static ASTNode *load_module_internal_impl(const char *module_path, Environment *env, bool use_cache, ModuleList *modules_to_track) {
     if (!module_path) return NULL;
     
     /* Check if module is already loaded (only if using cache) */
